@@ -11,8 +11,26 @@ T = ("T",)
 F = ("F",)
 
 
+_canon_cache = {}
+
+
+def _canon(text):
+    """Atom texts are compared as opaque strings: make them independent of the operand order of commutative operators."""
+    c = _canon_cache.get(text)
+    if c is None:
+        c = text
+        if any(ch in text for ch in "&|^+*"):
+            try:
+                from .core import cnorm
+                c = cnorm(text)
+            except Exception:
+                c = text
+        _canon_cache[text] = c
+    return c
+
+
 def A(text):
-    return ("a", text)
+    return ("a", _canon(text))
 
 
 def Not(f):
